@@ -470,6 +470,13 @@ pub fn plan(pre: &Snap, root: &[u8], inv: &Inv) -> Plan {
             }
         }
     }
+    // a regular file mapped onto a path that already holds a symbolic link is written *through* the link
+    // (as cp does): the same excluded shape, one level down
+    for m in &mapped {
+        if m.kind == K::F && pre.get(&m.dst).map(|x| x.kind == K::L).unwrap_or(false) {
+            return Plan::Unmodelled("regular file mapped onto an existing symlink in the destination".into());
+        }
+    }
     // an intermediate destination component that is a symlink makes writes land elsewhere: excluded domain
     for m in &mapped {
         let mut p = parent(&m.dst).to_vec();
